@@ -91,6 +91,7 @@ def handler : Handler := fun op inp out =>
       | some (c0 :: cs) =>
         (model, check [
           ("input-in-domain", inDomain a),
+          ("harness-error-renumbered-input-outside-domain", rs.all fun (_, b) => inDomain (specSym b)),
           ("inputs-are-renumberings", rs.all fun (p, b) => isIso p.toArray a (specSym b)),
           ("renumbering-is-what-the-definition-says", rs.all fun (p, b) => renumber a p.toArray == specSym b),
           ("canonical-form-invariant-under-renumbering", cs.all (· == c0))])
